@@ -1,5 +1,6 @@
 //! Core of the patronus verification harness: reference semantics, enumerators, plumbing.
 pub mod bv;
+pub mod chunkio;
 pub mod evalref;
 pub mod run;
 pub mod sweep;
